@@ -15,7 +15,7 @@ def run_check(pid, tier, replay=None):
     chk = Check(pid, tier=tier, replay=replay)
 
     def body():
-        if chk.mutant:
+        if chk.mutant and not chk.mutant.startswith('seed-'):
             mod.MUTANTS[chk.mutant]()
         mod.run(chk)
         return chk.finish()
